@@ -16,10 +16,17 @@ class RxUnsupported(Exception):
     pass
 
 
+
+def _lockfile():
+    """Cargo.lock of the repository under check; it is an ignored file, so a `git worktree` snapshot of /repo has none: fall back to /repo's."""
+    p = os.path.join(os.environ.get("VERIF_REPO", "/repo"), "Cargo.lock")
+    return p if os.path.exists(p) else "/repo/Cargo.lock"
+
+
 def build_rxcheck():
     d = os.path.join(VERIF, "native", "rxcheck")
     import shutil
-    shutil.copy(os.path.join(os.environ.get("VERIF_REPO", "/repo"), "Cargo.lock"), os.path.join(d, "Cargo.lock"))
+    shutil.copy(_lockfile(), os.path.join(d, "Cargo.lock"))
     env = dict(os.environ, CARGO_NET_OFFLINE="true", CARGO_TARGET_DIR=os.path.join(VERIF, ".build", "rxcheck-target"))
     p = subprocess.run(["cargo", "build", "--offline"], cwd=d, capture_output=True, text=True, env=env)
     if p.returncode != 0:
@@ -699,10 +706,41 @@ REGEX_MOCK = r'''
 pub mod rxmock {
     pub struct Regex { pub f: fn(&str) -> Option<(usize, usize)> }
     pub struct Match<'a> { s: &'a str, a: usize, b: usize }
-    impl<'a> Match<'a> { pub fn as_str(&self) -> &'a str { &self.s[self.a..self.b] } pub fn start(&self) -> usize { self.a } pub fn end(&self) -> usize { self.b } }
+    impl<'a> Match<'a> { pub fn as_str(&self) -> &'a str { &self.s[self.a..self.b] } pub fn start(&self) -> usize { self.a } pub fn end(&self) -> usize { self.b }
+                         pub fn range(&self) -> core::ops::Range<usize> { self.a..self.b } }
     impl Regex {
         pub fn find<'a>(&self, s: &'a str) -> Option<Match<'a>> { match (self.f)(s) { Some((a, b)) => Some(Match { s, a, b }), None => None } }
         pub fn is_match(&self, s: &str) -> bool { (self.f)(s).is_some() }
+        /// successive non-overlapping leftmost matches (group 0 only), like regex::Regex::captures_iter / find_iter
+        pub fn captures_iter<'r, 'a>(&'r self, s: &'a str) -> CapIter<'r, 'a> { CapIter { re: self, s, pos: 0, done: false } }
+    }
+    pub struct Captures<'a> { s: &'a str, a: usize, b: usize }
+    impl<'a> Captures<'a> {
+        pub fn get(&self, i: usize) -> Option<Match<'a>> { assert!(i == 0, "regex mock: only group 0 is modelled"); Some(Match { s: self.s, a: self.a, b: self.b }) }
+    }
+    impl<'a> core::ops::Index<usize> for Captures<'a> {
+        type Output = str;
+        fn index(&self, i: usize) -> &str { assert!(i == 0, "regex mock: only group 0 is modelled"); unsafe { core::str::from_utf8_unchecked(&self.s.as_bytes()[self.a..self.b]) } }
+    }
+    pub struct CapIter<'r, 'a> { re: &'r Regex, s: &'a str, pos: usize, done: bool }
+    impl<'r, 'a> Iterator for CapIter<'r, 'a> {
+        type Item = Captures<'a>;
+        fn next(&mut self) -> Option<Captures<'a>> {
+            if self.done || self.pos > self.s.len() { return None; }
+            let rest = unsafe { core::str::from_utf8_unchecked(&self.s.as_bytes()[self.pos..]) };
+            match (self.re.f)(rest) {
+                None => { self.done = true; None }
+                Some((a, b)) => {
+                    let (a, b) = (a + self.pos, b + self.pos);
+                    if b > a { self.pos = b; } else {      // empty match: step over one char
+                        let bytes = self.s.as_bytes(); let mut p = b + 1;
+                        while p < bytes.len() && (bytes[p] & 0xC0) == 0x80 { p += 1; }
+                        self.pos = p;
+                    }
+                    Some(Captures { s: self.s, a, b })
+                }
+            }
+        }
     }
 }
 '''
